@@ -4,6 +4,7 @@
 -/
 import NngModel.Proofs.BusInv
 import NngModel.Proofs.BytesLemmas
+import NngModel.Generated.C09
 namespace Nng.Bus
 open Nng Nng.Proto
 
